@@ -41,6 +41,10 @@ print(json.dumps(meta["confirmed"], indent=1)[:1500])
 if ok:
     assert sh("git -C /repo status --porcelain").stdout.strip() == "", "/repo dirty"
     assert sh(f"git -C /repo apply {a.src}/patch.diff").returncode == 0
+    # the evidence directory must keep describing the unchanged tree: put it aside while the mutant is checked
+    import tempfile
+    keep = tempfile.mkdtemp(prefix="evidence-keep-")
+    sh(f"cp -a /verif/evidence/. {keep}/")
     try:
         for p in [a.prop] + [x for x in a.also.split(",") if x]:
             t0 = time.time()
@@ -57,6 +61,7 @@ if ok:
                         break
     finally:
         sh("git -C /repo checkout -- . && git -C /repo clean -fdq src")
+        sh(f"rm -rf /verif/evidence && mkdir /verif/evidence && cp -a {keep}/. /verif/evidence/ && rm -rf {keep}")
     assert sh("git -C /repo status --porcelain").stdout.strip() == ""
 dst = f"/verif/seeded/{a.name}"
 os.makedirs(dst, exist_ok=True)
